@@ -259,12 +259,17 @@ Fixpoint dt_setprop (d : dtype) (u : str) (k : str) (v : pyval) {struct d} : opt
 (* ------------------------------------------------------------------ phase B: one accessible with its cfg entry *)
 Inductive pres := PCrash | PErr (e : err) | PGo (p : param).
 
-(* Parameter.setProperty(key, v) after the datatype check; only called on PGo *)
+(* setProperty('value' / 'default', None) stores Python's None: for `pobj.value is None` / `pobj.default is None` in
+   _handle_writes and for Parameter.finish (None never converts, the entry is cleared) that is the same as not set.
+   (Since 8b6cdcd the property is set BEFORE the datatype check fails on it.) *)
+Definition nn (v : pyval) : option pyval := match v with PNone => None | _ => Some v end.
+
+(* Parameter.setProperty(key, v): first loop of the cfg entry; only called on PGo *)
 Definition param_setprop (p : param) (k : str) (v : pyval) : pres :=
   match pprop_type param_props k with
   | Some t =>
-      if str_eqb k k_value then PGo (set_value p (Some v))          (* ValueType: stored as given *)
-      else if str_eqb k k_default then PGo (set_default p (Some v))
+      if str_eqb k k_value then PGo (set_value p (nn v))            (* ValueType: stored as given *)
+      else if str_eqb k k_default then PGo (set_default p (nn v))
       else
         match mp_validate t v with
         | Err _ => PCrash                                          (* BadValueError -> ProgrammingError *)
@@ -313,22 +318,36 @@ Definition cmd_setprop (p : param) (k : str) (v : pyval) : pres :=
       end
   end.
 
+(* first loop of Module._add_accessible (since 8b6cdcd): accessible.setProperty for every item of the entry, in dict
+   order; no datatype check here *)
 Definition prop_step (r : pres) (kv : str * pyval) : pres :=
   match r with
   | PGo p =>
       let '(k, v) := kv in
-      if p_iscmd p then
-        if mem_str k checked_value_props then PCrash                (* CommandType(value): outside the model *)
-        else cmd_setprop p k v
-      else
-        let chk := if mem_str k checked_value_props then
-                     match p_dt p with Some d => match conv d v with Ok _ => None | Err e => Some e end | None => None end
-                   else None in
-        match chk with
-        | Some e => if is_bad_value e then PErr (ErrBadValue (p_name p) k) else PCrash
-        | None => param_setprop p k v
-        end
+      if p_iscmd p then cmd_setprop p k v else param_setprop p k v
   | _ => r
+  end.
+
+(* second loop: AFTER all properties are applied `for propname in ('value', 'default', 'constant'): if propname in cfg:
+   accessible.datatype(cfg[propname])` - in this fixed order, with the final datatype; the first failure ends the entry
+   (BadValueError collected as '<name>.<propname>: ...', anything else leaves __init__).  A command never gets here with
+   one of these keys (they are no Command properties: KeyError in the first loop); CommandType(value) is outside the model *)
+Fixpoint check_loop (p : param) (en : entry) (ks : list str) : pres :=
+  match ks with
+  | [] => PGo p
+  | k :: r =>
+      match assoc_str k en with
+      | None => check_loop p en r
+      | Some v =>
+          if p_iscmd p then PCrash
+          else match p_dt p with
+               | None => check_loop p en r
+               | Some d => match conv d v with
+                           | Ok _ => check_loop p en r
+                           | Err e => if is_bad_value e then PErr (ErrBadValue (p_name p) k) else PCrash
+                           end
+               end
+      end
   end.
 
 (* _handle_writes: returns the parameter, the errors and the writeDict entry *)
@@ -367,6 +386,13 @@ Fixpoint apply_entry_keep (p : param) (e : entry) : param * pres :=
       | x => (p, x)
       end
   end.
+(* the whole try block: all properties, then the checks of value / default / constant with the final datatype (a failing
+   check leaves all properties applied) *)
+Definition apply_entry (p : param) (e : entry) : param * pres :=
+  match apply_entry_keep p e with
+  | (p1, PGo _) => (p1, check_loop p1 e checked_value_props)
+  | x => x
+  end.
 
 (* after the cfg entry (also when it failed): hiding for an unexported module, fixExport, then the name map *)
 Definition fix_export (p : param) : param :=
@@ -379,7 +405,7 @@ Definition acc_step (mexp : bool) (p : param) (e : option cval) : option accres 
   match e with
   | Some (CRaw _) => None
   | _ =>
-      let '(pk, r) := match e with Some (CDict en) => apply_entry_keep p en | _ => (p, PGo p) end in
+      let '(pk, r) := match e with Some (CDict en) => apply_entry p en | _ => (p, PGo p) end in
       match r with
       | PCrash => None
       | PErr er =>
